@@ -93,7 +93,7 @@ func splitAllow(h string) []string {
 
 // rEcho builds an Echo with the table registered in the given order; *cur receives the observation.
 // rAddRoutes registers routes[from:] on e; handler i records itself in cur.
-func rAddRoutes(e *echo.Echo, routes []rRoute, from int, cur *rObs) {
+func rAddRoutes(reg rRegistrar, e *echo.Echo, routes []rRoute, from int, cur *rObs) {
 	for i := from; i < len(routes); i++ {
 		i := i
 		h := func(c echo.Context) error {
@@ -134,7 +134,7 @@ func rAddRoutes(e *echo.Echo, routes []rRoute, from int, cur *rObs) {
 		if routes[i].Direct {
 			e.Router().Add(routes[i].Method, routes[i].Path, h)
 		} else {
-			rAddVia(e, i+len(routes[i].Path), routes[i].Method, routes[i].Path, h)
+			rAddVia(reg, i+len(routes[i].Path), routes[i].Method, routes[i].Path, h)
 		}
 	}
 }
@@ -151,6 +151,23 @@ func rScribble(c echo.Context) {
 	c.SetParamNames(names...)
 	c.SetParamValues(vals...)
 	c.SetPath("/scribbled")
+}
+
+// rHostForC03: a fifth of the C03 tables (chosen by their content) are registered on the router of a host with an
+// unusual name, through the host group's own helpers (Group.Add / verbs / Match / RouteNotFound); the requests then
+// carry that Host.  The expected answers are those of the table itself.
+func rHostForC03(routes []rRoute) string {
+	n := 0
+	for _, r := range routes {
+		if r.Direct {
+			return "" // Router.Add works on the default router
+		}
+		n += len(r.Path) + len(r.Method)
+	}
+	if len(routes) == 0 || n%5 != 2 {
+		return ""
+	}
+	return "Shop.Example.com:8443"
 }
 
 // rRegistrar is the registration surface shared by *echo.Echo and *echo.Group.
@@ -222,6 +239,11 @@ func rEcho(routes []rRoute, cur *rObs) *echo.Echo {
 // rEchoWarm registers routes[:warm], serves the warm-up requests, then registers the rest: what was
 // answered before a registration must not influence what is answered after it.
 func rEchoWarm(routes []rRoute, warm int, warmReqs []rReq, cur *rObs) *echo.Echo {
+	return rEchoWarmHost("", routes, warm, warmReqs, cur)
+}
+
+// rEchoWarmHost: like rEchoWarm, with the table registered on the router of `host` when that is not empty
+func rEchoWarmHost(host string, routes []rRoute, warm int, warmReqs []rReq, cur *rObs) *echo.Echo {
 	e := echo.New()
 	e.Logger.SetOutput(nopWriter{})
 	if warm <= 0 || warm > len(routes) {
@@ -229,11 +251,16 @@ func rEchoWarm(routes []rRoute, warm int, warmReqs []rReq, cur *rObs) *echo.Echo
 		warmReqs = nil
 	}
 	defer func() {
-		rAddRoutes(e, routes[:warm], 0, cur)
+		// a table may live on a host router: rHostFor says which (the requests then carry that Host)
+		var reg rRegistrar = e
+		if host != "" {
+			reg = e.Host(host)
+		}
+		rAddRoutes(reg, e, routes[:warm], 0, cur)
 		for _, q := range warmReqs {
 			rServe(e, cur, q)
 		}
-		rAddRoutes(e, routes, warm, cur)
+		rAddRoutes(reg, e, routes, warm, cur)
 		*cur = cur.keep()
 	}()
 	e.Use(func(next echo.HandlerFunc) echo.HandlerFunc {
